@@ -44,6 +44,10 @@ func init() {
 			{ID: "C08-R19", Title: "proxies are not built on nil pointers", Floor: 1, Run: proxiesAreNotBuiltOnNilPointers},
 			{ID: "C08-R20", Title: "structs in Go slices are proxied in place", Floor: 1, Run: sliceElementsAreProxiedInPlace},
 			{ID: "C08-R21", Title: "every output of a reflective call is visited", Floor: 1, Run: everyOutputOfAReflectiveCallIsVisited},
+			{ID: "C08-R22", Title: "the hand-back helper rejects what is not assignable", Floor: 1, Run: handbackHelperRejectsTheUnassignable},
+			{ID: "C08-R23", Title: "reflected results are nil-tested as values", Floor: 1, Run: reflectedResultsAreNilTestedAsValues},
+			{ID: "C08-R24", Title: "float limits reject 2^63", Floor: 1, Run: floatLimitsRejectTwoToThe63},
+			{ID: "C08-R25", Title: "attributes are discovered as they are accessed", Floor: 1, Run: attributesAreDiscoveredAsTheyAreAccessed},
 		},
 	})
 }
@@ -272,6 +276,9 @@ func collectValueOf(v ssa.Value, out *[]*ssa.Call, seen map[ssa.Value]bool, dept
 				collectValueOf(a, out, seen, depth+1)
 			}
 		}
+	case *ssa.Extract:
+		// the value component of a helper that also returns an error
+		collectValueOf(x.Tuple, out, seen, depth+1)
 	case *ssa.Phi:
 		for _, e := range x.Edges {
 			collectValueOf(e, out, seen, depth+1)
@@ -363,6 +370,8 @@ func viaConvert(sink ssa.Value, vo *ssa.Call) bool {
 					walk(a, depth+1, true)
 				}
 			}
+		case *ssa.Extract:
+			walk(x.Tuple, depth+1, sawConvert)
 		case *ssa.Phi:
 			for _, e := range x.Edges {
 				walk(e, depth+1, sawConvert)
